@@ -794,6 +794,40 @@ func TestVerifC19(t *testing.T) {
 		if !found || out.Summary.RenamedFunctions != 1 || out.Summary.Added != 0 || out.Summary.Removed != 0 {
 			r.Violate("rename/oversized-function", fmt.Sprintf("a function with 2600 if-statements (beyond the block-count guard) whose only change is its name Dispatch -> Route is not reported as one rename: entries %v, summary %+v", seen, out.Summary), nil)
 		}
+		// functions whose names differ only in CASE (an exported function next to its unexported
+		// helper): the exported one is renamed
+		{
+			body := func(name string) string {
+				return "func " + name + "(s []int) int {\n\tt := 0\n\tfor _, v := range s {\n\t\tif v > 2 {\n\t\t\tt += v\n\t\t}\n\t}\n\treturn t\n}\n"
+			}
+			helper := "func sum(a, b int) int { return a + b }\n\nfunc Mean(s []int) int {\n\tif len(s) == 0 {\n\t\treturn 0\n\t}\n\treturn sum(len(s), 1) / len(s)\n}\n"
+			cd := filepath.Join(scratch, "case-twins")
+			os.MkdirAll(filepath.Join(cd, "o"), 0o755)
+			os.MkdirAll(filepath.Join(cd, "n"), 0o755)
+			co, cn := filepath.Join(cd, "o", "f.go"), filepath.Join(cd, "n", "f.go")
+			oldSrc, newSrc := "package p\n\n"+body("Sum")+"\n"+helper, "package p\n\n"+body("Total")+"\n"+helper
+			os.WriteFile(co, []byte(oldSrc), 0o644)
+			os.WriteFile(cn, []byte(newSrc), 0o644)
+			cout, cerr := ComputeDiff(RealFileSystem{}, co, cn)
+			r.Eval()
+			r.Nontrivial("case-twins")
+			if cerr != nil {
+				r.Fail("ComputeDiff case twins: %v", cerr)
+				return
+			}
+			ok := false
+			var seenC []string
+			for _, fd := range cout.Functions {
+				seenC = append(seenC, fd.Function+":"+fd.Status)
+				if fd.Function == "Sum → Total" && fd.Status == "renamed" {
+					ok = true
+				}
+			}
+			if !ok {
+				r.Violate("rename/next-to-a-case-twin", fmt.Sprintf("old file: Sum, sum, Mean; new file: Total (Sum renamed), sum, Mean: the rename is not reported as Sum → Total: %v", seenC), nil)
+			}
+			fpCheckAccounting(r, "case-twins", map[string]interface{}{"case": "case-twins"}, cout, co, oldSrc, cn, newSrc)
+		}
 		// two UNRELATED functions beyond the size guard (both carry the placeholder fingerprint): one
 		// removed, one added, different signatures and call profiles — not a rename
 		{
